@@ -7,6 +7,9 @@ import xobjects as xo
 from xobjects.specialize_source import specialize_source
 
 TARGETS = ["cpu_serial", "cpu_openmp", "opencl", "cuda"]
+# loop limits are arbitrary blank-free expressions
+LIMS = {1: "n1", 2: "n2", 3: "n1/2", 4: "p->n", 5: "n2-1", 6: "(n1+1)"}
+LIM_ID = {v: k for k, v in LIMS.items()}
 
 
 def render(items, files_dir=None):
@@ -17,7 +20,7 @@ def render(items, files_dir=None):
         if k == "plain": out.append("    L%d();" % it[1])
         elif k == "only": out.append("    L%d(); //only_for_context %s" % (it[1], " ".join(it[2])))
         elif k == "include": out.append("//include_file f%d.h for_context %s" % (it[1], " ".join(it[2])))
-        elif k == "open": out.append("//vectorize_over v%d n%d" % (it[1], it[2]))
+        elif k == "open": out.append("//vectorize_over v%d %s" % (it[1], LIMS[it[2]]))
         elif k == "close": out.append("//end_vectorize")
         elif k == "raw": out.append(it[1])
     return "\n".join(out)
@@ -34,8 +37,9 @@ def classify(text):
         if m: out.append(["line", int(m.group(1))]); continue
         m = re.fullmatch(r"//\s*L(\d+)\(\);(\s*//only_for_context.*)?", s)
         if m: out.append(["commented", int(m.group(1))]); continue
-        m = re.fullmatch(r"for \(int v(\d+)=0; v\1<n(\d+); v\1\+\+\)\{\s*(//.*)?", s)
-        if m: out.append(["for", int(m.group(1)), int(m.group(2))]); continue
+        m = re.fullmatch(r"for \(int v(\d+)=0; v\1<(\S+); v\1\+\+\)\{\s*(//.*)?", s)
+        if m:
+            out.append(["for", int(m.group(1)), LIM_ID[m.group(2)]] if m.group(2) in LIM_ID else ["unknown", s]); continue
         m = re.fullmatch(r"\{?\s*int v(\d+);\s*(//.*)?", s)
         if m: pending = ("decl", int(m.group(1)), s.startswith("{")); continue
         m = re.fullmatch(r"v(\d+)=get_global_id\(0\);\s*(//.*)?", s)
@@ -48,10 +52,10 @@ def classify(text):
             if not pending or pending[1] != int(m.group(1)): out.append(["unknown", s]); pending = None
             else: pending = ("cudaid", int(m.group(1)), pending[2])
             continue
-        m = re.fullmatch(r"if \(v(\d+)<n(\d+)\)\{", s)
+        m = re.fullmatch(r"if \(v(\d+)<(\S+)\)\{", s)
         if m:
-            if not pending or pending[0] != "cudaid" or pending[1] != int(m.group(1)): out.append(["unknown", s])
-            else: out.append(["cudaguard", int(m.group(1)), int(m.group(2)), pending[2]])
+            if not pending or pending[0] != "cudaid" or pending[1] != int(m.group(1)) or m.group(2) not in LIM_ID: out.append(["unknown", s])
+            else: out.append(["cudaguard", int(m.group(1)), LIM_ID[m.group(2)], pending[2]])
             pending = None; continue
         m = re.fullmatch(r"(\}+)\s*//end autovectorized", s)
         if m: out.append(["end", len(m.group(1))]); continue
